@@ -594,6 +594,38 @@ def dead_code_premises(ctx):
                         f.line)
 
 
+def string_fold_order(ctx):
+    """The machine concatenates left + right (a = second pop = left operand,
+    C01 operator chain); the folder must concatenate in the same order."""
+    from ..astutil import canon
+    repo = ctx.repo
+    rule = 'C02.string-folder-equals-machine'
+    ctx.rule(rule, 'BinaryOp._eval_string concatenates the value of the '
+             'left operand before the value of the right one, as _exec_add '
+             'does on the operand stack')
+    f = repo.func('qbee.expr', 'BinaryOp._eval_string')
+    n = 0
+    for r in ast.walk(f.node):
+        if isinstance(r, ast.Return) and isinstance(r.value, ast.BinOp) and \
+                isinstance(r.value.op, ast.Add):
+            n += 1
+            lt = canon(r.value.left, f.node)
+            rt = canon(r.value.right, f.node)
+            ok = 'self.left' in lt and 'self.right' not in lt and \
+                'self.right' in rt and 'self.left' not in rt
+            construct = f'{f.file}:BinaryOp._eval_string:concat'
+            ctx.instance(rule, construct, sample={'left': lt, 'right': rt})
+            if not ok:
+                ctx.finding(rule, construct,
+                            f'the folder concatenates `{lt}` + `{rt}`; the '
+                            f'machine computes left + right: a constant '
+                            f'string expression changes value at -O1',
+                            f.file, r.lineno)
+    if n == 0:
+        ctx.observe('BinaryOp._eval_string is not a plain `a + b` return; '
+                    'string folding order undecided')
+
+
 def fold_returns(ctx):
     """Constant folding replaces an expression by a *literal* holding its
     value (or leaves it alone).  A fold() that returns one of the node's
@@ -672,6 +704,7 @@ def run(ctx):
     peephole_guards(ctx)
     dead_code_premises(ctx)
     fold_returns(ctx)
+    string_fold_order(ctx)
     from .. import peephole
     peephole.check(ctx, 'C02')
     return ('Structural clauses of C02 decided on the current source: '
